@@ -110,7 +110,9 @@ def probe_pred(ctx, payload):
                     ra, rb = base[1][0::2], o[1][0::2]
                     near_tie = any(abs(x - y) <= 1e-12 for i, x in enumerate(pa) for y in pa[i + 1:])
                     d = max((abs(x - y) for x, y in zip(pa, pb)), default=0.0)
-                    if ra != rb and not near_tie:
+                    # bit-identical probabilities leave no excuse for different ranks; with probabilities that differ in
+                    # the last bits, ranks may legitimately flip only between (near-)tied teams
+                    if ra != rb and (pa == pb or not near_tie):
                         d = 1.0
                 else:
                     d = max((abs(x - y) for x, y in zip(o[1], base[1])), default=0.0)
